@@ -1,159 +1,11 @@
 /-
-  specexplore — the outcome set of a small multi-threaded program under the model: every
-  interleaving of the model's atomic steps (critical sections, final stores, completions,
-  expiries at any point) that respects each thread's program order.  Used by the C03 check as the
-  linearizability oracle: the per-thread results the real crate produced under some schedule
-  must be one of the outcomes printed here.  A search aid, never a proof.
-
-  input (stdin): the program format of harness `conc`:   cap=<n|u> …   /   t0: op;op   /   t1: …
-  output: one line per distinct outcome:  t0:res,res|t1:res,…   (STUCK marks a thread blocked for ever)
+  specexplore — the outcome set of a small multi-threaded program under the model (see Main/SpecOps.lean
+  for the thread-level moves): every interleaving of the model's atomic steps that respects each thread's
+  program order.  Linearizability oracle of the C03 check.  A search aid, never a proof.
 -/
-import Kanal.Seq
+import Main.SpecOps
 import Std.Data.HashSet
 open Kanal
-
-structure Thr where
-  ops      : List String := []
-  waiting  : Option (Nat × Bool × Msg × Bool) := none  -- blocked call: signal, timed?, message (0 = receive), option variant?
-  fin      : List Nat := []                     -- waiters this thread has claimed and must still finalise
-  cur      : Option String := none              -- result of the current call, reported once `fin` is empty
-  results  : List String := []                  -- reversed
-  futs     : List Nat := []                     -- its alive futures (torn down at the end)
-  hs       : Nat := 1                           -- its sender handles
-  hr       : Nat := 1
-  tornDown : Bool := false
-
-def claimedSet (s : State) : List Nat :=
-  (List.range s.sigs.length).filter fun i => match s.sigs[i]? with | some g => g.claimed | none => false
-
-def keptStr (s : State) (m : Msg) (opt : Bool) : String := if opt && s.cust m = .callerS then " kept" else ""
-
-/-- Global future-name table: program-chosen future ids → model SigIds. -/
-abbrev FutMap := List (Nat × Nat)
-
-def lookupFut (fm : FutMap) (f : Nat) : Option Nat := (fm.find? (·.1 == f)).map (·.2)
-
-/-- One thread-level move: returns new state, new thread, new future map, or `none` if not enabled. -/
-def opStep (s : State) (t : Thr) (fm : FutMap) (txt : String) : Option (State × Thr × FutMap) :=
-  let v := Variant.good
-  let finish (s1 : State) (r : String) (t : Thr) (fm : FutMap) : Option (State × Thr × FutMap) :=
-    let newly := (claimedSet s1).filter (fun i => !(claimedSet s).contains i)
-    some (s1, { t with fin := newly, cur := some r }, fm)
-  match txt.splitOn " " with
-  | ["send", m] =>
-    let m := m.toNat!
-    match step v s (.send m .sync false) with
-    | some (s1, .blocked i) => some (s1, { t with waiting := some (i, false, m, false) }, fm)
-    | some (s1, r) => finish s1 (resStr r) t fm
-    | none => none
-  | ["sendt", m, _] =>
-    let m := m.toNat!
-    match step v s (.send m .timed false) with
-    | some (s1, .blocked i) => some (s1, { t with waiting := some (i, true, m, false) }, fm)
-    | some (s1, r) => finish s1 (resStr r) t fm
-    | none => none
-  | ["sendot", m, _] =>
-    let m := m.toNat!
-    match step v s (.send m .timed true) with
-    | some (s1, .blocked i) => some (s1, { t with waiting := some (i, true, m, true) }, fm)
-    | some (s1, r) => finish s1 (resStr r ++ keptStr s1 m true) t fm
-    | none => none
-  | ["try", m, o, rt] =>
-    let m := m.toNat!
-    match step v s (.trySend m (o == "1") (rt == "1")) with
-    | some (s1, r) => finish s1 (resStr r ++ keptStr s1 m (o == "1")) t fm
-    | none => none
-  | ["recv"] =>
-    match step v s (.recv .sync false) with
-    | some (s1, .blocked i) => some (s1, { t with waiting := some (i, false, 0, false) }, fm)
-    | some (s1, r) => finish s1 (resStr r) t fm
-    | none => none
-  | ["recvt", _] =>
-    match step v s (.recv .timed false) with
-    | some (s1, .blocked i) => some (s1, { t with waiting := some (i, true, 0, false) }, fm)
-    | some (s1, r) => finish s1 (resStr r) t fm
-    | none => none
-  | ["tryr", rt] =>
-    match step v s (.tryRecv (rt == "1")) with
-    | some (s1, r) => finish s1 (resStr r) t fm
-    | none => none
-  | ["drain", _] =>
-    match step v s .drain with
-    | some (s1, r) => finish s1 (resStr r) t fm
-    | none => none
-  | ["asend", f, m] =>
-    match step v s (.newSendFut m.toNat!) with
-    | some (s1, .num i) => finish s1 "ok" { t with futs := t.futs ++ [i] } ((f.toNat!, i) :: fm)
-    | _ => none
-  | ["arecv", f] =>
-    match step v s (.newRecvFut false) with
-    | some (s1, .num i) => finish s1 "ok" { t with futs := t.futs ++ [i] } ((f.toNat!, i) :: fm)
-    | _ => none
-  | ["stream", f] =>
-    match step v s (.newRecvFut true) with
-    | some (s1, .num i) => finish s1 "ok" { t with futs := t.futs ++ [i] } ((f.toNat!, i) :: fm)
-    | _ => none
-  | ["polls", f, w] =>
-    match lookupFut fm f.toNat! with
-    | none => none
-    | some i =>
-      match step v s (.pollSend i w.toNat!) with
-      | some (_, .spin) => none           -- busy-waits for the peer's final store: not enabled yet
-      | some (s1, r) => finish s1 (resStr r) t fm
-      | none => none
-  | ["pollr", f, w] =>
-    match lookupFut fm f.toNat! with
-    | none => none
-    | some i =>
-      match step v s (.pollRecv i w.toNat!) with
-      | some (_, .spin) => none
-      | some (s1, r) => finish s1 (resStr r) t fm
-      | none => none
-  | ["dropsf", f] =>
-    match lookupFut fm f.toNat! with
-    | none => none
-    | some i =>
-      match step v s (.dropSendFut i) with
-      | some (_, .spin) => none
-      | some (s1, _) => finish s1 "ok" { t with futs := t.futs.erase i } fm
-      | none => none
-  | ["droprf", f] =>
-    match lookupFut fm f.toNat! with
-    | none => none
-    | some i =>
-      match step v s (.dropRecvFut i) with
-      | some (_, .spin) => none
-      | some (s1, _) => finish s1 "ok" { t with futs := t.futs.erase i } fm
-      | none => none
-  | ["clone", sd, _] =>
-    let side := if sd == "s" then Role.send else Role.recv
-    match step v s (.clone side) with
-    | some (s1, _) => finish s1 "ok" (if sd == "s" then { t with hs := t.hs + 1 } else { t with hr := t.hr + 1 }) fm
-    | none => none
-  | ["drop", sd] =>
-    let side := if sd == "s" then Role.send else Role.recv
-    if (if sd == "s" then t.hs else t.hr) == 0 then finish s "panic" t fm
-    else match step v s (.dropHandle side) with
-      | some (s1, _) => finish s1 "ok" (if sd == "s" then { t with hs := t.hs - 1 } else { t with hr := t.hr - 1 }) fm
-      | none => none
-  | ["conv", _] => finish s "ok" t fm
-  | ["close", _] =>
-    match step v s .close with
-    | some (s1, r) => finish s1 (resStr r) t fm
-    | none => none
-  | [name, sd] =>
-    let side := if sd == "s" then Role.send else Role.recv
-    let lab : Option Label := match name with
-      | "len" => some .len | "isempty" => some .isEmpty | "isfull" => some .isFull | "capacity" => some .capacity
-      | "isbounded" => some .isBounded | "scount" => some .senderCount | "rcount" => some .receiverCount
-      | "isclosed" => some .isClosed | "isdisc" => some (.isDisconnected side) | "isterm" => some .isTerminated
-      | _ => none
-    match lab with
-    | none => none
-    | some l => match step v s l with
-      | some (s1, r) => finish s1 (resStr r) t fm
-      | none => none
-  | _ => none
 
 /-- Teardown ops of a thread at the end of its list (as `conc` does: futures, then handles newest first). -/
 def teardown (t : Thr) (fm : FutMap) (s : State) : List String :=
